@@ -518,9 +518,10 @@ class C06(PropertyCheck):
                          wit("linear", 2, "ASAP", None, [["CNOT", [1], [0], None], ["RX", [0], [], 3]]))
 
     # ---------------------------------------------------------------------------------
-    def _load_cases(self, ctx, res, cases, kind, e2e=True):
-        """cases: (setup, N, mode, params | None, gates with p8 angles)"""
+    def _load_cases(self, ctx, res, cases, kind, e2e=True, e2e_budget=1e9):
+        """cases: (setup, N, mode, params | None, gates with p8 angles); `e2e_budget`: seconds spent in run_analytically"""
         defaults = self.info["defaults"]
+        spent = 0.0
         lines, dens = [], []
         for setup, N, mode, params, gates in cases:
             pl = param_lists(setup, N, params, defaults)
@@ -618,11 +619,17 @@ class C06(PropertyCheck):
                 # classes excluded by the hypotheses of end_to_end_partial (known findings): not compared here
                 res.hist["e2e: excluded class"] = res.hist.get("e2e: excluded class", 0) + 1
                 continue
+            if spent > e2e_budget:
+                res.hist["e2e: skipped (time budget of the tier)"] = res.hist.get("e2e: skipped (time budget of the tier)", 0) + 1
+                continue
+            t0 = time.time()
             try:
                 U = run_product(proc)
             except Exception as e:
                 res.disagree(inp, "unitary", classify(e), "run_analytically raises", w)
                 continue
+            finally:
+                spent += time.time() - t0
             d = float(np.abs(U - V).max())
             res.hist["e2e compared"] = res.hist.get("e2e compared", 0) + 1
             if d > 1e-9:
@@ -727,7 +734,8 @@ class C06(PropertyCheck):
             ks = [1, 2, 3, 4, -1, -2, -3, 5, 7, 8, 9, 12, -6, -8, 10]      # x pi/4: negative, > 2 pi included
             if zero:
                 ks = ks + [0, 0]
-            a = 2 * rng.choice(ks) if even else rng.choice([2 * k for k in ks] + [1, 3, -5, 7, 17])
+            # PHASEGATE: multiples of pi/4 only (the model's exact angles cannot halve an odd multiple of pi/8, C03's phOK)
+            a = 2 * rng.choice(ks) if (even or name == "PHASEGATE") else rng.choice([2 * k for k in ks] + [1, 3, -5, 7, 17])
         return [name, qs[:nt], qs[nt:], a]
 
     def _rand_case(self, rng, names, maxlen=7, even=True, zero=True):
@@ -743,30 +751,37 @@ class C06(PropertyCheck):
         # exhaustive: every placement of every accepted gate (one angle each), 1-4 qubits (thorough: 5), both topologies,
         # default parameters, three modes for the first placement
         cases = []
+        top = 5 if ctx.thorough else 3
         for setup in ("linear", "circular"):
-            for N in range(2 if setup == "circular" else 1, (5 if ctx.thorough else 4) + 1):
+            for N in range(2 if setup == "circular" else 1, top + 1):
                 for name in ACCEPTED + REFUSED:
                     nc, nt, par = SHAPE.get(name) or SHAPE_REFUSED[name]
                     if nc + nt > N:
                         continue
                     for qs in itertools.permutations(range(N), nc + nt):
                         cases.append((setup, N, "ASAP", None, [[name, list(qs[:nt]), list(qs[nt:]), (6 if par else None)]]))
-        self._load_cases(ctx, res, cases, "single")
+        if not ctx.thorough:      # 4 and 5 qubits: every two-qubit placement of the exchange gates, sampled others
+            for setup in ("linear", "circular"):
+                for N in (4, 5):
+                    for qs in itertools.permutations(range(N), 2):
+                        cases.append((setup, N, "ASAP", None, [["ISWAP", list(qs), [], None]]))
+        self._load_cases(ctx, res, cases, "single", e2e_budget=(300 if ctx.thorough else 12))
         res.exhaustive = True
         res.notes.append(f"exhaustive: the coupling-label rule for every ordered pair of distinct qubits on both topologies, "
                          f"2..{40 if ctx.thorough else 12} qubits ({nlab} pairs); every placement (ordered, any distance) of every "
-                         f"accepted gate incl. TOFFOLI/FREDKIN and five refused gates on 1-{5 if ctx.thorough else 4} qubits x 2 "
-                         f"topologies ({len(cases)} circuits); then seeded random circuits (per-qubit dyadic parameter vectors, three "
+                         f"accepted gate incl. TOFFOLI/FREDKIN and five refused gates on 1-{top} qubits x 2 "
+                         f"topologies" + ("" if ctx.thorough else ", every ordered ISWAP placement on 4 and 5 qubits") +
+                         f" ({len(cases)} circuits); then seeded random circuits (per-qubit dyadic parameter vectors, three "
                          f"schedule modes, negative / zero / > 2 pi angles), a direct-compile stream with malformed gate lists")
         # random circuits, end to end
-        n_rand = 2500 if ctx.thorough else 260
+        n_rand = 2500 if ctx.thorough else 200
         two = [n for n in ACCEPTED if SHAPE[n][0] + SHAPE[n][1] <= 2]
         cases = []
         for i in range(n_rand):
             r = rng.random()
             names = two if r < 0.6 else (ACCEPTED if r < 0.85 else ["RX", "RZ", "RY", "ISWAP", "SQRTISWAP", "GLOBALPHASE", "PHASEGATE"])
             cases.append(self._rand_case(rng, names, even=(rng.random() < 0.8), zero=(rng.random() < 0.5)))
-        self._load_cases(ctx, res, cases, "random")
+        self._load_cases(ctx, res, cases, "random", e2e_budget=(600 if ctx.thorough else 15))
         # direct compile: native gate lists incl. non-adjacent exchange gates, unsupported names, out-of-range qubits
         cases = []
         for i in range(1500 if ctx.thorough else 200):
